@@ -350,7 +350,7 @@ J(name="c09.gridDistance", props=["C09", "C12", "C18"], harness="c12.c", entry="
   replace=["cellToLocalIjk/cellToLocalIjk_frame", "ijkDistance/ijkDistance_frame"])
 J(name="c14.gridPathCellsSize", props=["C14", "C12", "C18"], harness="c12.c", entry="h_gridPathCellsSize", enforce=["gridPathCellsSize"],
   replace=["gridDistance/gridDistance_ghost"])
-J(name="c14.gridPathCells", props=["C14", "C12", "C18"], harness="c12.c", entry="h_gridPathCells", enforce=["gridPathCells"], checks=NO_CONV,
+J(name="c14.gridPathCells", props=["C14", "C12", "C18"], harness="c12.c", entry="h_gridPathCells", enforce=["gridPathCells"], checks=NO_CONV, timeout=1800,
   exclude=[(r"(cubeRound|gridPathCells)\.overflow", "integer arithmetic on the rounded interpolated cube coordinates is overflow-free only because the "
             "coordinates produced by cellToLocalIjk are small; that bound is not established here (cellToLocalIjk is a frame-only contract)")],
   replace=["gridDistance/gridDistance_ghost", "cellToLocalIjk/cellToLocalIjk_frame", "localIjkToCell/localIjkToCell_frame",
